@@ -121,6 +121,42 @@ func (eng *Engine) initModels() {
 		fr.vc.trust("floating point: uninterpreted")
 		return &Val{T: types.Typ[types.Float64], S: app("g_fceil", args[0].S)}
 	})
+	// math.Min / math.Max on float64: exact on values converted from integers of
+	// magnitude below 2^53 (conversion is then injective and order preserving, and
+	// converting back returns the integer). Facts are stated for the integer
+	// arguments found syntactically under the conversions.
+	for _, mm := range []string{"math.Min", "math.Max"} {
+		isMin := mm == "math.Min"
+		reg(mm, func(fr *Frame, b *ssa.BasicBlock, f *ssa.Function, c *ssa.CallCommon, args []Val, st *State, reach string, pos token.Pos) *Val {
+			vc := fr.vc
+			vc.eng.needFloat()
+			vc.trust("model: math.Min/Max exact on float64 values converted from integers below 2^53 in magnitude; floating point otherwise uninterpreted")
+			x, y := args[0].S, args[1].S
+			lt := app("g_flt", x, y)
+			var r string
+			if isMin {
+				r = sIte(lt, x, y)
+			} else {
+				r = sIte(lt, y, x)
+			}
+			small := func(a string) string {
+				return sAnd(app("bvslt", a, "#x0020000000000000"), app("bvsgt", a, "#xffe0000000000000"))
+			}
+			inner := func(t string) string {
+				if strings.HasPrefix(t, "(g_i2f ") && strings.HasSuffix(t, ")") {
+					return t[len("(g_i2f ") : len(t)-1]
+				}
+				return ""
+			}
+			a, bb := inner(x), inner(y)
+			if a != "" && bb != "" {
+				g := sAnd(small(a), small(bb))
+				vc.assume(sImp(g, sEq(lt, app("bvslt", a, bb))))
+				vc.assume(sImp(g, sAnd(sEq(app("g_f2i", x), a), sEq(app("g_f2i", y), bb))))
+			}
+			return &Val{T: types.Typ[types.Float64], S: vc.def(bvSort(64), "fminmax", r)}
+		})
+	}
 	eng.initBufModels()
 	reg("math.Floor", func(fr *Frame, b *ssa.BasicBlock, f *ssa.Function, c *ssa.CallCommon, args []Val, st *State, reach string, pos token.Pos) *Val {
 		fr.vc.eng.needFloat()
